@@ -949,6 +949,7 @@ class FortranReaderBase:
             if (
                 not self._format.is_pyf
                 and isinstance(item, Line)
+                and not isinstance(item, CppDirective)
                 and not item.is_f2py_directive
                 and ";" in item.get_line()
             ):
